@@ -253,6 +253,12 @@ pub(crate) fn value_of_correct_type(
                 || matches!(type_definition, schema::ExtendedType::Scalar(scalar) if !scalar.is_built_in());
             if !accepts_list {
                 unsupported_type(diagnostics, arg_value, ty)
+            } else if !ty.is_list() {
+                // A list literal given to a custom scalar is opaque, like an object literal:
+                // `[null]` is a value of `JSON!` just as `{a: [null]}` is.
+                for v in li {
+                    undefined_variables_in_opaque_value(diagnostics, v, var_defs);
+                }
             } else {
                 let item_type = ty.same_location(ty.item_type().clone());
                 if type_definition.is_input_type() {
